@@ -162,6 +162,7 @@ def run_case(case, arrays, classes, mon, viol, skip=()):
                 mon['count_changes'] = mon.get('count_changes', 0) + 1
             before = [rows(pa) for pa in pas]
             nreal = [pa.num_real_particles for pa in pas]
+            via_solver = bool((case['idx'] + rep) % 2)
             for k, pa in enumerate(pas):
                 n = pa.get_number_of_particles()
                 ind = scratch if case['idx'] % 2 else LongArray()
@@ -176,9 +177,22 @@ def run_case(case, arrays, classes, mon, viol, skip=()):
                             got.min() if len(got) else None,
                             got.max() if len(got) else None))
                     break
-                nn.spatially_order_particles(k)
+                if not via_solver:
+                    nn.spatially_order_particles(k)
             else:
-                nn.update()
+                if via_solver:
+                    # what a run with --reorder-freq does: the queries that
+                    # follow (initial accelerations, integrators that start
+                    # with update_nnps=False) get no further update
+                    from pysph.solver.solver import Solver
+                    sol = Solver.__new__(Solver)
+                    sol.particles = pas
+                    sol.nnps = nn
+                    sol.reorder_particles()
+                    mon['reorders_via_solver'] = mon.get(
+                        'reorders_via_solver', 0) + 1
+                else:
+                    nn.update()
                 for k, pa in enumerate(pas):
                     after, uid = rows(pa)
                     mon['arrays_compared'] = mon.get('arrays_compared', 0) + 1
